@@ -873,3 +873,110 @@ Proof.
   exists ka. split; [reflexivity|]. exists kb. split; [reflexivity|]. split; [exact H|].
   destruct (i_is_client a), (i_is_client b); cbn in *; congruence.
 Qed.
+
+(* ------------------------------------------------------------------ ConnectionState() more than once *)
+
+Lemma export_state_unchanged memo c : c_state (fst (export_gen memo c)) = c_state c.
+Proof.
+  unfold export_gen. destruct (if memo then c_memo c else None); [reflexivity|].
+  destruct (gen_state (c_state c)); reflexivity.
+Qed.
+
+(* a history changes nothing but the send counters, and those exactly as its sends do; looks
+   leave the connection state alone *)
+Lemma conn_run_state memo evs : forall c,
+  c_state (conn_run memo c evs) =
+  set_local_seq (c_state c) (counters_after (i_local_seq (c_state c)) (sends_of evs)).
+Proof.
+  induction evs as [|x r IH]; intros c.
+  - cbn. destruct (c_state c); reflexivity.
+  - cbn [conn_run]. rewrite IH. destruct x as [e|].
+    + cbn [conn_step c_state sends_of counters_after set_local_seq i_local_seq]. reflexivity.
+    + cbn [conn_step sends_of]. rewrite export_state_unchanged. reflexivity.
+Qed.
+
+(* the code: whatever was looked at before, an export is generateState of the state as it is at
+   the moment of the call, and its sequence number is the connection's next one *)
+Theorem export_reflects_current_counters (c : conn) (evs : list ev) :
+  let c' := conn_run false c evs in
+  snd (export c') = gen_state (c_state c') /\
+  i_local_seq (c_state c') = counters_after (i_local_seq (c_state c)) (sends_of evs) /\
+  i_local_epoch (c_state c') = i_local_epoch (c_state c) /\
+  forall p, snd (export c') = Ok p ->
+    p_seq p = get (i_local_seq (c_state c')) (i_local_epoch (c_state c')) /\
+    p_seq p = get (counters_after (i_local_seq (c_state c)) (sends_of evs)) (i_local_epoch (c_state c)).
+Proof.
+  cbn zeta. set (c' := conn_run false c evs).
+  assert (E : snd (export c') = gen_state (c_state c')).
+  { unfold export, export_gen. destruct (gen_state (c_state c')); reflexivity. }
+  assert (S1 : c_state c' = set_local_seq (c_state c) (counters_after (i_local_seq (c_state c)) (sends_of evs)))
+    by apply conn_run_state.
+  split; [exact E|]. split; [rewrite S1; reflexivity|]. split; [rewrite S1; reflexivity|].
+  intros p Hp. rewrite E in Hp.
+  assert (Q : p_seq p = get (i_local_seq (c_state c')) (i_local_epoch (c_state c'))).
+  { unfold gen_state, gen_state_gen in Hp. destruct (i_suite (c_state c')); [|discriminate].
+    destruct (i_version (c_state c') =? v13); [discriminate|].
+    destruct (N.of_nat (length (i_local_seq (c_state c'))) <=? i_local_epoch (c_state c'));
+      [destruct export_checks_counter_exists; discriminate|].
+    injection Hp as <-. reflexivity. }
+  split; [exact Q|]. rewrite Q, S1. reflexivity.
+Qed.
+
+Lemma sends_of_sends evs : sends_of (map EvSend (sends_of evs)) = sends_of evs.
+Proof. induction evs as [|[e|] r IH]; cbn; [reflexivity|rewrite IH; reflexivity|exact IH]. Qed.
+
+(* looks are invisible: the export at the end of a history is the export at the end of the same
+   history without its looks *)
+Theorem looks_do_not_change_the_export (s : istate) (evs : list ev) :
+  snd (export (conn_run false (conn_fresh s) evs)) =
+  snd (export (conn_run false (conn_fresh s) (map EvSend (sends_of evs)))).
+Proof.
+  destruct (export_reflects_current_counters (conn_fresh s) evs) as [E1 _].
+  destruct (export_reflects_current_counters (conn_fresh s) (map EvSend (sends_of evs))) as [E2 _].
+  cbn zeta in E1, E2. rewrite E1, E2. rewrite !conn_run_state.
+  rewrite sends_of_sends. reflexivity.
+Qed.
+
+(* hence C19's sequence statement holds for every history with looks in it: sends and looks in
+   any order from the start of the connection, the export at the end serialised and resumed, [post]
+   more records - no (epoch, sequence number) twice *)
+Theorem looks_then_export_continues (evs : list ev) (e : N) (post : nat) (s0 s' : istate) :
+  i_local_seq s0 = [] -> i_local_epoch s0 = e ->
+  let c' := conn_run false (conn_fresh s0) evs in
+  import_export (c_state c') = Some s' ->
+  N.of_nat (length (sends_of evs) + post) < two64 ->
+  get (i_local_seq s') e = get (counters_after [] (sends_of evs)) e /\
+  (forall x, In x (emitted [] (sends_of evs)) -> ~ In x (emitted (i_local_seq s') (repeat e post))) /\
+  NoDup (emitted [] (sends_of evs) ++ emitted (i_local_seq s') (repeat e post)).
+Proof.
+  intros H0 He. cbn zeta. intros Hie Hn.
+  assert (S1 := conn_run_state false evs (conn_fresh s0)). cbn [conn_fresh c_state] in S1.
+  destruct (seq_continues (sends_of evs) e post (c_state (conn_run false (conn_fresh s0) evs)) s') as [A [_ [_ [B C]]]].
+  - rewrite S1. cbn [set_local_seq i_local_seq]. rewrite H0. reflexivity.
+  - rewrite S1. exact He.
+  - exact Hie.
+  - exact Hn.
+  - split; [exact A|]. split; [exact B|exact C].
+Qed.
+
+(* a memoising ConnectionState() breaks this: look, two records, export - the export carries the
+   number of the look (1, the connection's next number is 3) and the resumed connection sends
+   (epoch 1, sequence number 1) a second time *)
+Theorem export_memoised_refuted : exists s evs p s',
+  i_local_seq s = counters_after [] [0; 0; 1] /\
+  let c' := conn_run true (conn_fresh s) evs in
+  snd (export_gen true c') = Ok p /\
+  p_seq p = 1 /\ get (i_local_seq (c_state c')) (i_local_epoch (c_state c')) = 3 /\
+  snd (export c') <> Ok p /\
+  match serialize p with Some z => match unmarshal z with Some p' => gen_internal p' | None => None end | None => None end = Some s' /\
+  In (1, 1) (emitted [] ([0; 0; 1] ++ sends_of evs)) /\ In (1, 1) (emitted (i_local_seq s') [1]).
+Proof.
+  exists (mkI v12 1 1 [1] [2] [3] (counters_after [] [0; 0; 1]) [] [] (Some 168) 0 [] [] [] false true
+              [] [] [] [] false (false, false) false (0, 0)).
+  exists [EvLook; EvSend 1; EvSend 1].
+  do 2 eexists.
+  split; [reflexivity|]. cbn zeta.
+  split; [vm_compute; reflexivity|]. split; [reflexivity|]. split; [vm_compute; reflexivity|].
+  split; [vm_compute; discriminate|]. split; [vm_compute; reflexivity|].
+  split; vm_compute; auto.
+Qed.
